@@ -94,7 +94,8 @@ class Url:
             # Find scheme
             parts = raw.split(b'://', 1)
             if len(parts) == 2:
-                scheme = parts[0]
+                # Scheme is case-insensitive
+                scheme = parts[0].lower()
                 rest = parts[1]
                 if scheme not in (allowed_url_schemes or DEFAULT_ALLOWED_URL_SCHEMES):
                     raise HttpProtocolException(
